@@ -237,20 +237,24 @@ class ShapeClient(Client):
 
     def transfer(self, st, state):
         state = dict(state)
-        if isinstance(st, ast.Assign) and len(st.targets) == 1 and isinstance(st.targets[0], ast.Name) and st.targets[0].id in self.names:
+        if isinstance(st, ast.Assign) and len(st.targets) == 1 and isinstance(st.targets[0], ast.Name):
             v = st.value
             nm = st.targets[0].id
             if isinstance(v, ast.Call) and fname(v) == "reshape" and len(v.args) == 2:
                 state[nm] = src(v.args[1]) == "xshape"
             elif isinstance(v, ast.Call) and (dotted(v.func) or "").startswith("transform_to_") and v.args and isinstance(v.args[0], ast.Name):
                 state[nm] = state.get(v.args[0].id, False)
+            elif isinstance(v, ast.Name):
+                state[nm] = state.get(v.id, False)          # a plain copy keeps the shape
             else:
                 state[nm] = False
-        elif isinstance(st, ast.Assign):
-            for t in st.targets:
+        elif isinstance(st, (ast.Assign, ast.AugAssign, ast.For)):
+            tgs = st.targets if isinstance(st, ast.Assign) else [st.target]
+            for t in tgs:
                 for x in ast.walk(t):
-                    if isinstance(x, ast.Name) and x.id in self.names and isinstance(x.ctx, ast.Store):
+                    if isinstance(x, ast.Name) and isinstance(x.ctx, ast.Store):
                         state[x.id] = False
+        state = {k: v for k, v in state.items() if v}          # only the names known to be shaped are kept (finite, canonical)
         return [tuple(sorted(state.items()))]
 
     def branch(self, test, state):
